@@ -507,7 +507,8 @@ fn compile_vote_delegation_certificate(
 }
 
 fn compile_certs(tx: &tir::Tx, network: Network) -> Result<Vec<primitives::Certificate>, Error> {
-    tx.adhoc
+    let certs = tx
+        .adhoc
         .iter()
         .filter_map(|x| match x.name.as_str() {
             "vote_delegation_certificate" => {
@@ -516,7 +517,17 @@ fn compile_certs(tx: &tir::Tx, network: Network) -> Result<Vec<primitives::Certi
             }
             _ => None,
         })
-        .collect::<Result<Vec<_>, _>>()
+        .collect::<Result<Vec<_>, _>>()?;
+
+    // certificates are a set: the same certificate written twice counts once
+    let mut unique = Vec::with_capacity(certs.len());
+    for cert in certs {
+        if !unique.contains(&cert) {
+            unique.push(cert);
+        }
+    }
+
+    Ok(unique)
 }
 
 fn compile_reference_inputs(tx: &tir::Tx) -> Result<Vec<primitives::TransactionInput>, Error> {
